@@ -72,6 +72,57 @@ def build(idx, sym, spec, m=None, top=True):
         ch = [build(idx, sym, c, m, False) for c in spec['children']]
         out['children'] = [c[1] for c in ch]
         v = idx.mk('ConcatSource', children=vec([Ref(Cell(c[0], tag='heap')) for c in ch]))
+    elif k == 'sms':
+        t = sym.text(spec['text']); out['_text'] = t
+        mp = spec['map']
+        def arcvec(xs): return Ref(Cell(vec([mkstr(x) for x in xs]), tag='heap'))
+        ms = mp['mappings']
+        if isinstance(ms, dict):
+            from . import codec
+            # template: a mappings string in which every '?' is a symbolic single-digit VLQ field (value < max)
+            bs, segs, cur = [], [], []
+            lim = ms.get('max', 4)
+            for ch in ms['template']:
+                if ch in ',;':
+                    if cur: segs.append(cur); cur = []
+                    segs.append(ch); bs.append(ord(ch)); continue
+                if ch == '?':
+                    c = z3.BitVec('sm%d' % sym.n, 8); sym.n += 1
+                    v = spec_b64_value(c)
+                    sym.st.pc.append(z3.And(v != 255, z3.ULT(v, lim)))
+                    cur.append([v & 31]); bs.append(c)
+                else:
+                    v = B64_ALPHABET.index(bytes([ord(ch)]))
+                    if v & 32: raise Inconclusive('template digits must be terminal digits')
+                    cur.append([z3.BitVecVal(v, 8)]); bs.append(ord(ch))
+            if cur: segs.append(cur)
+            mt = StrV(tuple(bs))
+            if ms.get('consistent', True):
+                exp = codec.spec_decode(sym.st, segs)
+                lines = spec['text'].split('\n')
+                prev = None
+                for (l, c, o) in exp:
+                    ll = len(lines) if not spec['text'].endswith('\n') else len(lines) - 1
+                    if l > max(ll, 1): sym.st.pc.append(z3.BoolVal(False)); continue
+                    sym.st.pc.append(z3.ULT(c, max(1, len(lines[l - 1]) + (1 if l < len(lines) else 0))))
+                    if prev is not None and prev[0] == l: sym.st.pc.append(z3.UGT(c, prev[1]))
+                    prev = (l, c)
+                    if o is not None:
+                        sym.st.pc.append(z3.ULT(o[0], max(1, len(mp.get('sources', [])))))
+                        if o[3] is not None: sym.st.pc.append(z3.ULT(o[3], max(1, len(mp.get('names', [])))))
+            out['_mappings'] = mt
+        else:
+            mt = mkstr(ms)
+        def smap(mt, mp):
+            root = mp.get('sourceRoot')
+            return idx.mk('SourceMap', version=IntV(3, 'u8'), file=none(), sources=arcvec(mp.get('sources', [])), sources_content=arcvec(mp.get('sourcesContent', [])),
+                          names=arcvec(mp.get('names', [])), mappings=Ref(Cell(mt, tag='heap')), source_root=(none() if root is None else some(Ref(Cell(mkstr(root), tag='heap')))), debug_id=none())
+        inner_map = none()
+        if spec.get('inner_map') is not None:
+            inner_map = some(smap(mkstr(spec['inner_map']['mappings']), spec['inner_map']))
+        v = idx.mk('SourceMapSource', value=t, name=mkstr(spec.get('name', 'x.js')), source_map=smap(mt, mp),
+                   original_source=(none() if spec.get('original_source') is None else some(mkstr(spec['original_source']))),
+                   inner_source_map=inner_map, remove_original_source=bool(spec.get('remove_original_source', False)))
     elif k == 'boxed':
         inner, ispec = build(idx, sym, spec['inner'], m, False); out['inner'] = ispec
         return Ref(Cell(inner, tag='heap')), out
@@ -172,6 +223,15 @@ def concretize_spec(mdl, spec, m=None, st=None):
         else: out['text'] = bytes(mval(mdl, b) for b in spec['_text'].bytes()).decode('utf-8', 'replace')
     if 'children' in spec: out['children'] = [concretize_spec(mdl, c, m, st) for c in spec['children']]
     if 'inner' in spec: out['inner'] = concretize_spec(mdl, spec['inner'], m, st)
+    if '_mappings' in spec:
+        mt = spec['_mappings']
+        ms = ''
+        for b in mt.bytes():
+            if isinstance(b, int): ms += chr(b)
+            else:
+                k = mval(mdl, b); ms += chr(k)
+                if m is not None and not m.valid(st, b == z3.BitVecVal(k, 8)): raise Undetermined(b == z3.BitVecVal(k, 8))
+        out['map'] = dict(spec['map'], mappings=ms)
     if spec['kind'] == 'replace':
         reps = []
         for r in spec['replacements']:
@@ -256,7 +316,9 @@ def source_map_of(m, st, mdl, v, idx):
     def strs(x):
         x = sv(x)
         return [det_text(m, st, mdl, as_text(e), False) for e in x.f]
-    return {'mappings': det_text(m, st, mdl, as_text(sm.f[idx.fld('SourceMap', 'mappings')]), False),
+    root = sm.f[idx.fld('SourceMap', 'source_root')]
+    return {'sourceRoot': None if root.disc == 0 else det_text(m, st, mdl, as_text(root.payload[1].f[0]), False),
+            'mappings': det_text(m, st, mdl, as_text(sm.f[idx.fld('SourceMap', 'mappings')]), False),
             'sources': strs(sm.f[idx.fld('SourceMap', 'sources')]), 'sourcesContent': strs(sm.f[idx.fld('SourceMap', 'sources_content')]),
             'names': strs(sm.f[idx.fld('SourceMap', 'names')])}
 
@@ -440,6 +502,13 @@ def tree_job(jid, tree, props=None, what=('source', 'c1f0', 'c0f0', 'c1f1', 'c0f
     else: alt = None
     for st1 in prepare(m, J, st, spec, mf):
         for s, raw in observe(m, J, st1, root, tyname, spec, what, mf):
+            if props == ['C17']:
+                # panic freedom only: every observation returned normally on this path (panics were recorded by observe)
+                J.obligations += 1; J.discharged += 1
+                if len(J.samples) < 1:
+                    mdl = J.model(m, s.pc)
+                    if mdl is not None: J.samples.append({'tree': concretize_spec(mdl, spec), 'returned_normally': list(what)})
+                continue
             if alt:
                 s.extra['_main_root'] = s.extra['root']; s.extra['root'] = s.extra['alt_root']
                 for s2, araw in observe(m, J, s, None, type_name(unbox(aspec)), aspec, what, mf):
